@@ -600,7 +600,7 @@ func streamEngine(args []string, in *bufio.Scanner, out *bufio.Writer) {
 				var str beacon.SyncStream
 				md := &drand.Metadata{BeaconID: streamBeaconID}
 				if f[4] == "public" {
-					req, str = core.VerifProxy(&drand.PublicRandRequest{Round: from, Metadata: md},
+					req, str = core.VerifStreamProxy(&drand.PublicRandRequest{Round: from, Metadata: md},
 						&scriptPublicServer{ctx: ctx, s: s})
 				} else {
 					req, str = &drand.SyncRequest{FromRound: from, Metadata: md}, &scriptSyncStream{ctx: ctx, s: s}
